@@ -253,3 +253,14 @@ CLAIMED['C39'] = dict(
     note="Trusted: z3, vf/refsem.py, vf/irsym.py. Loop-free programs only; exact-match memory tracking limitation recorded as C39-KF1.",
     technique="SMT equivalence between the real slice emulation and a direct IR executor per dependency solution",
     design_ref="DESIGN.md §3 C39")
+
+CLAIMED['C27'] = dict(
+    level='other', engine='symx (solver-driven enumeration)',
+    text="Bounded exhaustive exploration, driven by the solver: the adjacency bits of every graph with up to 4 nodes (66066 graphs; "
+         "thorough: plus 5x131072 5-node graphs) are solver booleans, "
+         "the real DiGraph dominators, post-dominators, immediate (post)dominators, dominator tree, dominance frontier, back "
+         "edges, natural loops, SCC, WCC, reachability, traversals, has_loop, find_path/find_path_from_src run for every head and "
+         "leaf and are compared with definition-level oracles.",
+    note="Enumeration, not symbolic reasoning: nodes are hashed by the implementation. Trusted: the 100-line oracle in vf/props/c27.py.",
+    technique="bounded exhaustive exploration of adjacency matrices enumerated by the SMT solver (no symbolic arithmetic survives hashing)",
+    design_ref="DESIGN.md §3 C27")
